@@ -7,6 +7,7 @@
 import OHVerif.Lemmas.Segs
 import OHVerif.Lemmas.VecBackend
 import OHVerif.Spec.Lawful
+import OHVerif.Spec.Diagram
 import OHVerif.Model.Lax
 
 namespace OH
@@ -242,17 +243,23 @@ def pack (d : LOHG O A) : OHG O A :=
     IC.ofSegs (d.hypergraph.adjacency.map (·.targets)) d.hypergraph.nodes.length,
     d.hypergraph.nodes, d.hypergraph.edges⟩⟩
 
-/-- `to_strict` of a well-formed lax diagram without pending unifications packs its data -/
-theorem toStrict_nopending [DecidableEq O] (B : Backend) (hB : IdCC B) (d : LOHG O A)
-    (hwf : d.wf = true) (hq : d.hypergraph.quotient = ([], [])) :
-    LOHG.toStrict B d = .ok (pack d) := by
-  obtain ⟨hh, hs, ht⟩ := (lohg_wf_iff d).1 hwf
+/-- once the quotient step has succeeded with a well-formed result, `to_strict` packs it -/
+theorem toStrict_of_quotient [DecidableEq O] (B : Backend) (d g : LOHG O A) (q : FinFun)
+    (hquot : LOHG.quotient B d = .ok (true, q, g)) (hwf : g.wf = true) :
+    LOHG.toStrict B d = .ok (pack g) := by
+  obtain ⟨hh, hs, ht⟩ := (lohg_wf_iff g).1 hwf
   obtain ⟨hlen, hr, _⟩ := (lhg_wf_iff _).1 hh
   unfold LOHG.toStrict
-  rw [quotient_nopending B hB d hwf hq]
+  rw [hquot]
   simp only [Res.ok_bind, Bool.not_true, Bool.false_eq_true, if_false,
     IC.finfun_new_ok _ _ hs, IC.finfun_new_ok _ _ ht, Res.unwrap_ok, toHypergraph_eq _ hr]
   simp [OHG.new, OHG.validate, HG.validate, IC.len, FinFun.source, IC.ofSegs, hlen, pack]
+
+/-- `to_strict` of a well-formed lax diagram without pending unifications packs its data -/
+theorem toStrict_nopending [DecidableEq O] (B : Backend) (hB : IdCC B) (d : LOHG O A)
+    (hwf : d.wf = true) (hq : d.hypergraph.quotient = ([], [])) :
+    LOHG.toStrict B d = .ok (pack d) :=
+  toStrict_of_quotient B d d _ (quotient_nopending B hB d hwf hq) hwf
 
 /-! ### the two packings are mutually inverse -/
 
@@ -406,6 +413,221 @@ theorem laxCompose_eq (f g : LOHG O A) :
       rw [List.map_map]
       rfl
   · rw [if_pos (by simpa using h), if_neg h]
+
+/-! ### arbitrary lawful backend: the numbering of the edgeless graph is a permutation -/
+
+theorem connected_nil (i j : Nat) (h : Connected [] [] i j) : i = j := by
+  induction h with
+  | rel _ _ h => simp [EdgeRel] at h
+  | refl => rfl
+  | symm _ _ _ ih => exact ih.symm
+  | trans _ _ _ _ _ ih1 ih2 => exact ih1.trans ih2
+
+/-- `p` is (the table of) a permutation of `0..n` -/
+structure IsPerm (p : List Nat) (n : Nat) : Prop where
+  length : p.length = n
+  lt : ∀ x ∈ p, x < n
+  inj : ∀ i j, i < n → j < n → p[i]? = p[j]? → i = j
+  onto : ∀ c, c < n → c ∈ p
+
+theorem lawful_cc_nil (B : Backend) (hB : B.Lawful) (n : Nat) :
+    ∃ p, B.cc [] [] n = (p, n) ∧ IsPerm p n := by
+  have hlen := hB.cc_length [] [] n rfl (by simp) (by simp)
+  have hlt := hB.cc_lt [] [] n rfl (by simp) (by simp)
+  have honto := hB.cc_onto [] [] n rfl (by simp) (by simp)
+  have hker := hB.cc_kernel [] [] n rfl (by simp) (by simp)
+  have hinj : ∀ i j, i < n → j < n → (B.cc [] [] n).1[i]? = (B.cc [] [] n).1[j]? → i = j :=
+    fun i j hi hj h => connected_nil i j ((hker i j hi hj).1 h)
+  have hnd : (B.cc [] [] n).1.Nodup := by
+    rw [FinFun.nodup_iff_inj, hlen]; exact hinj
+  have hperm : (B.cc [] [] n).1.Perm (List.range (B.cc [] [] n).2) := by
+    rw [List.perm_ext_iff_of_nodup hnd List.nodup_range]
+    intro a
+    rw [List.mem_range]
+    exact ⟨hlt a, honto a⟩
+  have hk : (B.cc [] [] n).2 = n := by
+    have := hperm.length_eq
+    rw [hlen, List.length_range] at this
+    exact this.symm
+  refine ⟨(B.cc [] [] n).1, ?_, hlen, ?_, hinj, ?_⟩
+  · exact Prod.ext rfl hk
+  · intro x hx; have := hlt x hx; omega
+  · intro c hc; exact honto c (by omega)
+
+theorem IsPerm.getD_lt {p : List Nat} {n : Nat} (h : IsPerm p n) (i : Nat) (hi : i < n) :
+    p.getD i 0 < n := by
+  have hi' : i < p.length := by rw [h.length]; exact hi
+  have : p.getD i 0 = p[i] := by simp [List.getD_eq_getElem?_getD, List.getElem?_eq_getElem hi']
+  rw [this]
+  exact h.lt _ (List.getElem_mem hi')
+
+theorem IsPerm.getElem? {p : List Nat} {n : Nat} (h : IsPerm p n) (i : Nat) (hi : i < n) :
+    p[i]? = some (p.getD i 0) := by
+  have hi' : i < p.length := by rw [h.length]; exact hi
+  simp [List.getD_eq_getElem?_getD, List.getElem?_eq_getElem hi']
+
+theorem IsPerm.bijOn {p : List Nat} {n : Nat} (h : IsPerm p n) : BijOn n n (p.getD · 0) := by
+  refine ⟨h.getD_lt, ?_, ?_⟩
+  · intro i j hi hj hij
+    apply h.inj i j hi hj
+    rw [h.getElem? i hi, h.getElem? j hj]
+    exact congrArg some hij
+  · intro c hc
+    obtain ⟨i, hi⟩ := List.mem_iff_getElem?.1 (h.onto c hc)
+    have hil : i < n := by rw [← h.length]; exact (List.getElem?_eq_some_iff.1 hi).1
+    refine ⟨i, hil, ?_⟩
+    have := h.getElem? i hil
+    rw [hi] at this
+    exact (Option.some.inj this).symm
+
+theorem mapM_get_perm {p : List Nat} {n : Nat} (hp : IsPerm p n) (l : List Nat)
+    (h : ∀ i ∈ l, i < n) :
+    l.mapM (fun i => Prim.get p i) = .ok (l.map (p.getD · 0)) := by
+  apply Res.mapM_ok
+  intro i hi
+  have := hp.getElem? i (h i hi)
+  unfold Prim.get
+  rw [this]
+  rfl
+
+/-- all node ids pushed through `π`, node labels replaced by `v`, no pending unification -/
+def relabel (π : Nat → Nat) (v : List O) (d : LOHG O A) : LOHG O A :=
+  ⟨d.sources.map π, d.targets.map π,
+   ⟨v, d.hypergraph.edges,
+    d.hypergraph.adjacency.map (fun e => ⟨e.sources.map π, e.targets.map π⟩), ([], [])⟩⟩
+
+theorem relabel_wf (π : Nat → Nat) (v : List O) (d : LOHG O A) (hwf : d.wf = true)
+    (hv : v.length = d.hypergraph.nodes.length)
+    (hπ : ∀ i, i < d.hypergraph.nodes.length → π i < d.hypergraph.nodes.length) :
+    (relabel π v d).wf = true := by
+  obtain ⟨hh, hs, ht⟩ := (lohg_wf_iff d).1 hwf
+  obtain ⟨hlen, hr, _⟩ := (lhg_wf_iff _).1 hh
+  rw [lohg_wf_iff, lhg_wf_iff]
+  refine ⟨⟨by simp [relabel, hlen], ?_, rfl, by simp [relabel], by simp [relabel]⟩, ?_, ?_⟩
+  · intro e he
+    obtain ⟨e0, he0, rfl⟩ := List.mem_map.1 he
+    constructor
+    · intro i hi
+      obtain ⟨j, hj, rfl⟩ := List.mem_map.1 hi
+      show π j < v.length
+      rw [hv]; exact hπ j ((hr e0 he0).1 j hj)
+    · intro i hi
+      obtain ⟨j, hj, rfl⟩ := List.mem_map.1 hi
+      show π j < v.length
+      rw [hv]; exact hπ j ((hr e0 he0).2 j hj)
+  · intro i hi
+    obtain ⟨j, hj, rfl⟩ := List.mem_map.1 hi
+    show π j < v.length
+    rw [hv]; exact hπ j (hs j hj)
+  · intro i hi
+    obtain ⟨j, hj, rfl⟩ := List.mem_map.1 hi
+    show π j < v.length
+    rw [hv]; exact hπ j (ht j hj)
+
+/-- the quotient step of a lax diagram without pending unifications, for ANY lawful backend:
+    a relabelling of the nodes by a permutation -/
+theorem quotient_lawful [DecidableEq O] (B : Backend) (hB : B.Lawful) (d : LOHG O A)
+    (hwf : d.wf = true) (hq : d.hypergraph.quotient = ([], [])) :
+    ∃ (p : List Nat) (v : List O), IsPerm p d.hypergraph.nodes.length ∧
+      v.length = d.hypergraph.nodes.length ∧
+      (∀ i, i < d.hypergraph.nodes.length → v[p.getD i 0]? = d.hypergraph.nodes[i]?) ∧
+      LOHG.quotient B d =
+        .ok (true, ⟨p, d.hypergraph.nodes.length⟩, relabel (p.getD · 0) v d) := by
+  obtain ⟨hh, hs, ht⟩ := (lohg_wf_iff d).1 hwf
+  obtain ⟨_, hr, _⟩ := (lhg_wf_iff _).1 hh
+  obtain ⟨p, hcc, hp⟩ := lawful_cc_nil B hB d.hypergraph.nodes.length
+  have hcoeq : LHG.coequalizer B d.hypergraph = .ok ⟨p, d.hypergraph.nodes.length⟩ := by
+    simp [LHG.coequalizer, FinFun.coequalizer, Prim.connectedComponents, hq, hcc, FinFun.source]
+  obtain ⟨v, hv, hvlen, hvpt, _⟩ := FinFun.universalArr_ok B ⟨p, d.hypergraph.nodes.length⟩
+    d.hypergraph.nodes hp.lt (by simp [FinFun.source, hp.length])
+    (by intro h0; have := hp.length; simp only at h0; rw [h0] at this; simpa using this.symm)
+    (by
+      intro i j hij hi hj
+      simp only [FinFun.source, hp.length] at hi hj
+      rw [hp.inj i j hi hj hij])
+  simp only at hvlen hvpt
+  have hadj : d.hypergraph.adjacency.mapM (fun e => do
+      let s ← e.sources.mapM (fun i => Prim.get p i)
+      let t ← e.targets.mapM (fun i => Prim.get p i)
+      Res.ok (⟨s, t⟩ : LEdge)) =
+      Res.ok (d.hypergraph.adjacency.map
+        (fun e => ⟨e.sources.map (p.getD · 0), e.targets.map (p.getD · 0)⟩)) := by
+    apply Res.mapM_ok
+    intro e he
+    rw [mapM_get_perm hp _ (hr e he).1, mapM_get_perm hp _ (hr e he).2]
+    rfl
+  refine ⟨p, v, hp, hvlen, fun i hi => hvpt i _ (hp.getElem? i hi), ?_⟩
+  unfold LOHG.quotient LHG.quotientH
+  rw [hcoeq]
+  simp only [Res.ok_bind, hv, hadj, Res.pure_eq, Bool.not_true, Bool.false_eq_true, if_false,
+    mapM_get_perm hp _ hs, mapM_get_perm hp _ ht]
+  rfl
+
+/-- `to_strict` without pending unifications for ANY lawful backend -/
+theorem toStrict_lawful [DecidableEq O] (B : Backend) (hB : B.Lawful) (d : LOHG O A)
+    (hwf : d.wf = true) (hq : d.hypergraph.quotient = ([], [])) :
+    ∃ (p : List Nat) (v : List O), IsPerm p d.hypergraph.nodes.length ∧
+      v.length = d.hypergraph.nodes.length ∧
+      (∀ i, i < d.hypergraph.nodes.length → v[p.getD i 0]? = d.hypergraph.nodes[i]?) ∧
+      (relabel (p.getD · 0) v d).wf = true ∧
+      LOHG.toStrict B d = .ok (pack (relabel (p.getD · 0) v d)) := by
+  obtain ⟨p, v, hp, hvlen, hvpt, hquot⟩ := quotient_lawful B hB d hwf hq
+  have hw := relabel_wf (p.getD · 0) v d hwf hvlen hp.getD_lt
+  exact ⟨p, v, hp, hvlen, hvpt, hw, toStrict_of_quotient B d _ _ hquot hw⟩
+
+/-! ### plain view of a lax diagram -/
+
+/-- the plain diagram a lax diagram denotes when its pending unifications are ignored -/
+def plain (d : LOHG O A) : PDiag O A :=
+  ⟨d.hypergraph.nodes,
+   List.zipWith (fun x e => ⟨x, e.sources, e.targets⟩) d.hypergraph.edges d.hypergraph.adjacency,
+   d.sources, d.targets⟩
+
+theorem zipWith_edges_eq (x : List A) (adj : List LEdge) :
+    List.zipWith (fun x st => (⟨x, st.1, st.2⟩ : PEdge A)) x
+        ((adj.map (·.sources)).zip (adj.map (·.targets))) =
+      List.zipWith (fun x e => ⟨x, e.sources, e.targets⟩) x adj := by
+  induction x generalizing adj with
+  | nil => simp
+  | cons a x ih =>
+    cases adj with
+    | nil => simp
+    | cons e adj => simp [ih]
+
+theorem pack_toPlain (d : LOHG O A) : (pack d).toPlain = plain d := by
+  simp only [OHG.toPlain, HG.toPlainEdges, pack, IC.segs_ofSegs, zipWith_edges_eq, plain]
+
+theorem unpack_plain (f : OHG O A) (hwf : f.wf = true) : plain (unpack f) = f.toPlain := by
+  rw [← pack_toPlain, pack_unpack f hwf]
+
+theorem zipWith_edges_map (π : Nat → Nat) (x : List A) (adj : List LEdge) :
+    List.zipWith (fun x (e : LEdge) => (⟨x, e.sources, e.targets⟩ : PEdge A)) x
+        (adj.map (fun e => ⟨e.sources.map π, e.targets.map π⟩)) =
+      (List.zipWith (fun x (e : LEdge) => (⟨x, e.sources, e.targets⟩ : PEdge A)) x adj).map
+        (PEdge.mapNodes π) := by
+  induction x generalizing adj with
+  | nil => simp
+  | cons a x ih =>
+    cases adj with
+    | nil => simp
+    | cons e adj => simp [ih, PEdge.mapNodes]
+
+/-- relabelling by a bijection is an isomorphism of plain diagrams -/
+theorem plain_iso_relabel (π : Nat → Nat) (v : List O) (d : LOHG O A)
+    (hv : v.length = d.hypergraph.nodes.length)
+    (hπ : BijOn d.hypergraph.nodes.length d.hypergraph.nodes.length π)
+    (hlab : ∀ i, i < d.hypergraph.nodes.length → v[π i]? = d.hypergraph.nodes[i]?) :
+    plain d ≅ plain (relabel π v d) := by
+  refine ⟨π, fun e => e, ?_, ?_, ?_, ?_, rfl, rfl⟩
+  · simpa [PDiag.n, plain, relabel, hv] using hπ
+  · have : (plain (relabel π v d)).edges.length = (plain d).edges.length := by
+      simp [plain, relabel]
+    rw [this]
+    exact ⟨fun _ h => h, fun _ _ _ _ h => h, fun k hk => ⟨k, hk, rfl⟩⟩
+  · intro i hi
+    exact hlab i hi
+  · intro e _
+    simp only [plain, relabel, zipWith_edges_map, List.getElem?_map]
 
 end LaxStrict
 end OH
